@@ -310,25 +310,22 @@ func (rn *rnode) rinsert(topic []byte, msg *message.PublishMessage) error {
 	if len(topic) == 0 {
 		l := msg.Len()
 
-		// Let's reuse the buffer if there's enough space
-		if l > cap(rn.buf) {
-			rn.buf = make([]byte, l)
-		} else {
-			rn.buf = rn.buf[0:l]
-		}
+		// A fresh buffer and message for every update: Retained() hands the stored
+		// message out by reference, and earlier lookups may still be encoding from it.
+		buf := make([]byte, l)
 
-		if _, err := msg.Encode(rn.buf); err != nil {
+		if _, err := msg.Encode(buf); err != nil {
 			return err
 		}
 
-		// Reuse the message if possible
-		if rn.msg == nil {
-			rn.msg = message.NewPublishMessage()
-		}
+		rmsg := message.NewPublishMessage()
 
-		if _, err := rn.msg.Decode(rn.buf); err != nil {
+		if _, err := rmsg.Decode(buf); err != nil {
 			return err
 		}
+
+		rn.buf = buf
+		rn.msg = rmsg
 
 		return nil
 	}
